@@ -2,3 +2,4 @@ import MillerModel.Props.C06
 import MillerModel.Props.C07
 import MillerModel.Props.C08
 import MillerModel.Props.C01
+import MillerModel.Props.C11
